@@ -380,10 +380,88 @@ def r_state(c):
         "the verdict on two shape components depends on earlier verdicts (a memo keyed by "
         "id() answers for dead objects whose address was reused)", floor_funcs=20)
 
+INTISH_ATTRS = ("shape", "indices", "newshape", "index_tuple")
+INTISH_ANN = ("ShapeComponent", "IndexExpr", "ShapeType", "Integer")
+
+
+def int_tests(c, rule, modules):
+    """pytato accepts NumPy integers wherever it accepts integers (INT_CLASSES =
+    (int, np.integer): shapes, indices, shifts).  A test `isinstance(x, int)` on a
+    shape component, an index or a reduction bound therefore takes a NumPy integer
+    for something symbolic / unsupported.  Returns the number of tests inspected."""
+    m = c.model
+    n = 0
+    for mi, fd in m.all_functions(modules=[x for x in modules if x in m.modules]):
+        from pta.order import _own_nodes
+        own = list(_own_nodes(fd))
+        # names bound to components of shapes / index tuples / bounds in this function
+        intish = {}
+        for a in fd.args.args + fd.args.kwonlyargs:
+            if a.annotation is not None and any(
+                    t in ast.unparse(a.annotation) for t in INTISH_ANN):
+                intish[a.arg] = f"parameter annotated {ast.unparse(a.annotation)[:30]}"
+        for x in own:
+            it = tg = None
+            if isinstance(x, (ast.For, ast.comprehension)):
+                it, tg = x.iter, x.target
+            elif isinstance(x, ast.Assign) and len(x.targets) == 1:
+                it, tg = x.value, x.targets[0]
+                if not any(isinstance(y, ast.Attribute) and y.attr == "bounds"
+                           for y in ast.walk(it)):
+                    it = None
+            if it is None:
+                continue
+            src = [y for y in ast.walk(it) if isinstance(y, ast.Attribute)
+                   and y.attr in INTISH_ATTRS + ("bounds",)]
+            if src:
+                for t in ast.walk(tg):
+                    if isinstance(t, ast.Name):
+                        intish.setdefault(t.id, f"component of `{m.frag(src[0], 30)}`")
+        for call in own:
+            if not (isinstance(call, ast.Call) and isinstance(call.func, ast.Name)
+                    and call.func.id == "isinstance" and len(call.args) == 2):
+                continue
+            x, ty = call.args
+            tys = [ast.unparse(e) for e in (ty.elts if isinstance(ty, ast.Tuple) else [ty])]
+            if "int" not in tys:
+                continue
+            if any(t in ("np.integer", "numpy.integer", "INT_CLASSES", "*INT_CLASSES",
+                         "Integer") for t in tys):
+                continue
+            why = None
+            if isinstance(x, ast.Name) and x.id in intish:
+                why = intish[x.id]
+            elif isinstance(x, ast.Subscript) and isinstance(x.value, ast.Attribute) \
+                    and x.value.attr in INTISH_ATTRS:
+                why = f"component of `{m.frag(x.value, 30)}`"
+            if why is None:
+                continue
+            n += 1
+            in_assert = False
+            p = call
+            while p is not fd and p is not None:
+                if isinstance(p, ast.Assert):
+                    in_assert = True
+                p = getattr(p, "_parent", None)
+            qn = m.qualname(fd).replace("pytato.", "", 1)
+            c.check(False, rule, qn, f"isinstance({m.frag(x, 25)}, int)", m.loc(mi, call),
+                    f"`{m.frag(call, 50)}`: {m.frag(x, 25)} is a {why}; NumPy integers are "
+                    "accepted there (INT_CLASSES), so x[np.int64(1)] or a shape "
+                    "(np.int64(3), 4) is taken for symbolic/unsupported"
+                    + (" (the assertion fails)" if in_assert else ""))
+    return n
+
+
+def r_intclass(c):
+    int_tests(c, "R16-INTCLASS", sorted(c.model.modules))
+    c.ok("R16-INTCLASS", "pytato", "integer-tests-on-shape-components-use-INT_CLASSES",
+         "pytato/scalar_expr.py:88", nontrivial=False)
+
+
 SPEC = Spec(
     prop="C16",
-    rules=[r_route, r_decision, r_bindnames, r_broadcast, r_state],
-    floors={"R16-ROUTE": 12, "R16-DECISION": 13, "R16-BINDNAMES": 3, "R16-BROADCAST": 8, "R16-STATE": 1},
+    rules=[r_route, r_decision, r_bindnames, r_broadcast, r_state, r_intclass],
+    floors={"R16-ROUTE": 12, "R16-DECISION": 13, "R16-BINDNAMES": 3, "R16-BROADCAST": 8, "R16-STATE": 1, "R16-INTCLASS": 1},
     explanation=(
         "R16-ROUTE (who-may-compare): local shape typing (X.shape / newshape, "
         "subscripts and slices of it, variables assigned from it, parameters and "
